@@ -137,6 +137,37 @@ func init() {
 							Case: Case{Kind: "parse", Cfg: defaultCfg.Desc, Base: &b, Input: sc + "://" + hs + rest, Family: "host-sequences", Index: i}, Host: want.Fields0(fHostname)})
 					}
 				}
+				// every route to a special URL's host: the host setters give what parsing gives (or refuse where parsing fails), and
+				// the protocol setter - in any letter case - never makes a special URL out of a non-special one with its opaque host
+				if i%4 == 1 && sc != "file" && !strings.ContainsAny(plain, "/\\?#:@[]") {
+					hs := r.spell(cps, []int{0, 3}[i/4%2], true)
+					for w := 3; w <= 4; w++ {
+						u, err := defaultCfg.Parser.Parse(sc + "://x/p")
+						if err != nil {
+							break
+						}
+						applySetter(u, w, hs)
+						exp := "x"
+						if o0.Kind == "U" && o0.Fields[fHostname] != "" {
+							exp = o0.Fields[fHostname]
+						}
+						if got := u.Hostname(); got != exp {
+							c.Report(Finding{Class: "violation", What: fmt.Sprintf("%s(%q) on %s://x/p gives the host %q; parsing the same host gives %q", setterNames[w], hs, sc, got, exp),
+								Case: Case{Kind: "hist", Cfg: defaultCfg.Desc, Input: sc + "://x/p", Ops: []string{Op{K: "s", W: w, A: hs}.String()}, Family: "host-setters", Index: i}, Host: exp})
+						}
+					}
+					if u, err := defaultCfg.Parser.Parse("sc://" + hs + "/p"); err == nil {
+						before := u.Hostname()
+						for _, proto := range []string{sc, strings.ToUpper(sc), r.caseFlip(sc) + ":", "FILE", "File:"} {
+							u.SetProtocol(proto)
+							if u.Protocol() != "sc:" || u.Hostname() != before {
+								c.Report(Finding{Class: "violation", What: fmt.Sprintf("SetProtocol(%q) on sc://%s/p: protocol %q, host %q (a non-special URL never becomes special; its host would not be a domain)", proto, hs, u.Protocol(), u.Hostname()),
+									Case: Case{Kind: "hist", Cfg: defaultCfg.Desc, Input: "sc://" + hs + "/p", Ops: []string{Op{K: "s", W: 0, A: proto}.String()}, Family: "host-setters", Index: i}})
+								break
+							}
+						}
+					}
+				}
 				// file URL: localhost in any spelling is the empty host
 				if sc == "file" && i%4 == 0 {
 					lh := r.spell(strings.Split("localhost", ""), r.Intn(6), true)
